@@ -225,7 +225,11 @@ def fitted(b, ignore_dq=True):
             else:
                 m.fit(data, ignore_disqualification=ignore_dq)
         _FIT[key] = m
-    return copy.deepcopy(_FIT[key]), build_baseline(b)
+    try:
+        return copy.deepcopy(_FIT[key]), build_baseline(b)
+    except Exception:
+        # a model object that cannot be deep-copied is handed out as its stored form read back
+        return model_class(b["family"]).from_json(_FIT[key].to_json()), build_baseline(b)
 
 
 def fit_fresh(b, ignore_dq=True):
